@@ -49,6 +49,7 @@ type Exec struct {
 	inlineDepth int
 	clockStable bool
 	inGlobalInv bool
+	evArgsSkip  int
 	onlySafety  bool
 }
 
@@ -684,7 +685,7 @@ func (x *Exec) havocLoop(p *Path, fr *FrameState, l *Loop) {
 	}
 	scan(fr.fn, l.Body, true)
 	if all {
-		x.e.havocAll(p)
+		x.havocEverything(p)
 	} else {
 		keys := make([]string, 0, len(targets))
 		for k := range targets {
